@@ -229,7 +229,7 @@ func runCore(t *testing.T, cfg coreCfg) sim.Result {
 				c.step("ansfail")
 			}
 		}
-		c.step("adv 1000s")
+		c.step("adv 600s")
 		s.Wait()
 		g := sim.Census()
 		sort.Strings(g)
